@@ -4,11 +4,11 @@ META = dict(
           'of the same backend type and running the script create / malloc / example-based pointer store+load / register callback / invoke a guest function that yields '
           'and calls the callback (which checks its sandbox reference and performs a nested invocation) / unregister / free / destroy / create again / ... / destroy; '
           'scheduling points at every acquire and release of RLBox\'s shared locks (own lock type through RLBOX_USE_CUSTOM_SHARED_LOCK; a second build keeps the library\'s DEFAULT lock macros and interposes the pthread rwlock operations they end in) and at yields inside mbox backend '
-          'entry points, guest functions and callbacks; all schedules with at most 2 preemptions (thorough: 3 for two threads) are enumerated depth-first (choice 0 = keep '
+          'entry points, guest functions and callbacks; all schedules with at most 2 preemptions for two threads and 1 for three threads (thorough: 3 and 2) are enumerated depth-first (choice 0 = keep '
           'running). Oracle per schedule: each thread\'s observation sequence equals its solo run; no deadlock; no vector-clock race on the RLBOX_VERIF_SHARED accesses '
           'to the process-wide sandbox list; a replayed prefix that does not fit is a hard error. Backends: mbox in registry mode (the list is on the hot path of every '
           'pointer translation) and noop (thread_local record). states/transitions = scheduling points executed, traces = complete schedules.'),
-    assumptions=['3 threads, preemption bound 2-3, fixed scripts - not the "2..16 threads, random sequences" of the quantifier text',
+    assumptions=['2-3 threads, preemption bound 1-3, fixed scripts - not the "2..16 threads, random sequences" of the quantifier text',
                  'unsynchronised accesses that are neither annotated nor separated by a yield are invisible to a cooperative scheduler; the free-running ThreadSanitizer supplement (thorough tier) looks for those and is not a deciding step',
                  'weak-memory behaviour of the status atomic is not modelled'],
 )
@@ -25,7 +25,7 @@ def run(ctx):
     if ctx.thorough:
         plan = [('c18_mbox', 2, 3, 2), ('c18_noop', 2, 3, 2), ('c18_mbox', 3, 2, 1), ('c18_noop', 3, 2, 1), ('c18_mbox_deflock', 2, 2, 2), ('c18_mbox_deflock', 3, 2, 1)]
     else:
-        plan = [('c18_mbox', 2, 2, 2), ('c18_noop', 2, 2, 2), ('c18_mbox', 3, 2, 1), ('c18_noop', 3, 1, 1), ('c18_mbox_deflock', 2, 2, 1)]
+        plan = [('c18_mbox', 2, 2, 2), ('c18_noop', 2, 2, 2), ('c18_mbox', 3, 1, 1), ('c18_noop', 3, 1, 1), ('c18_mbox_deflock', 2, 2, 1)]
     for b, th, bound, ln in plan:
         ctx.run(bins[b], ['--threads', th, '--bound', bound, '--len', ln])
     if ctx.thorough:
